@@ -1602,6 +1602,10 @@ def stack(ts, dim=0):
 
 def einsum(eq, *ops):
     eq = eq.replace(" ", "")
+    import re as _re
+    mm_ = _re.match(r"^\.\.\.([a-z])([a-z]),\.\.\.([a-z])([a-z])->\.\.\.([a-z])$", eq)
+    if mm_ and mm_.group(1) == mm_.group(3) and mm_.group(2) == mm_.group(4) == mm_.group(5) and mm_.group(1) != mm_.group(2):
+        eq = "...rc,...rc->...c"     # column-wise dot products, whatever the index letters
     if eq == "...rc,...rc->...c" and len(ops) == 2:
         a, b = ops
         shape = bcast_shapes(a._shape, b._shape)
